@@ -669,12 +669,12 @@ Proof.
   - auto.
 Qed.
 
-Lemma api_add_link sub name lid ltype ifs s s' r :
+Lemma api_add_link fl sub name lid ltype ifs s s' r :
   WF (sg s) -> type_allowed KLink ltype = true -> add_link_pre (sg s) ifs = true ->
-  t_add_link sub name lid ltype ifs s = (s', r) -> WF (sg s').
+  t_add_link fl sub name lid ltype ifs s = (s', r) -> WF (sg s').
 Proof.
   intros W T P H. unfold t_add_link in H.
-  peel H W. peel H W.
+  peel H W. peel H W. peel H W.
   apply bind_inv in H as [[s1 [id [H1 H2]]]|[e [H1 _]]]; [apply ret_inv in H2 as [-> _]|];
     unfold new_link in H1.
   all: peel H1 W; peel H1 W; peel H1 W; peel H1 W; peel H1 W.
